@@ -345,6 +345,9 @@ def family_iter(fam, params):
     elif fam == "arith":
         for e in exprgen.fam_arith(*params):
             yield e
+    elif fam == "cond_nary":
+        for e in exprgen.fam_cond_nary(*params):
+            yield e
     elif fam == "mem":
         for e in exprgen.fam_mem(*params):
             yield e
@@ -372,6 +375,7 @@ def families(tier):
             ("compose", ((1, 2, 3),), 4),
             ("shift_rot", ((2, 3),), 4),
             ("arith", ((2, 3),), 4),
+            ("cond_nary", ((2, 3),), 4),
             ("mem", ((8,), (8, 16, 32)), 1),
             ("wide", ((32, 64, 128),), 4),
         ]
@@ -390,6 +394,7 @@ def families(tier):
         ("compose", ((1, 2, 3, 4),), 16),
         ("shift_rot", ((2, 3, 4, 5, 8),), 16),
         ("arith", ((2, 3, 4, 5),), 16),
+        ("cond_nary", ((1, 2, 3, 4, 8),), 8),
         ("mem", ((8, 16), (8, 16, 32, 64)), 2),
         ("wide", ((31, 32, 33, 63, 64, 65, 127, 128),), 8),
     ]
